@@ -25,6 +25,13 @@ CHECKS = [
         "text": "Generated-input search comparing sensor_model (state, covariance, recorded innovation and innovation covariance) with the textbook Kalman correction in 60-digit mpmath, for sensors of 1..4 readings with unequal noises, plus zero-innovation, symmetry, posterior<=prior and purity invariants. Exploration within bounded sizes.",
         "note": "Covariances rescaled (power of two) so cond(S) stays moderate; readings are constructed not to be rejected (tau<=0.9 of the threshold or filtering disabled).",
     },
+    {
+        "property_id": "C02",
+        "cpp": True,
+        "technique": "property-based testing (Hypothesis) with compile-and-run: generated definitions -> cpp.compile/compile_ekf -> g++ -> driver; outputs addressed by named accessor vs mpmath evaluator, central differences and configured noise",
+        "text": "Generated-input search over all four control x calibration combinations, 0..3 sensors of 1..4 readings and both CSE settings: the generated header/source must compile and every entry of the model, both Jacobians, sensor predictions/Jacobians and both noise matrices must equal the independent reference in the slot its name designates. Exploration; C++ programs are sampled (a compile per program).",
+        "note": "Compiles against a vendored Eigen-shaped stand-in with g++ 12 (Eigen and Bazel are absent); identifier-safe names; dt symbol named dt; <=4 states.",
+    },
 ]
 
 _PENDING = "check not built yet in this revision of /verif (planned in DESIGN.md section 6)"
